@@ -855,6 +855,9 @@ bool SPxLPBase<Rational>::readLPF(
 
          case BINARIES:
          case INTEGERS:
+            if(!LPFisColName(pos))
+               goto syntax_error;
+
             if((colidx = LPFreadColName(pos, cnames, cset, nullptr, spxout)) < 0)
             {
                SPX_MSG_WARNING((*this->spxout),
